@@ -8,7 +8,7 @@ PID = "C03"
 GEN = ["primality"]
 LEAN = ["Ymq.Props.C03"]
 AUDIT = "Ymq.Audit.C03"
-THEOREMS = ['Ymq.C03.rho_fallthrough_panics', 'Ymq.C03.factor_total_partial', 'Ymq.C03.factor_total_not_rho', 'Ymq.C03.factorImpl_total_partial']
+THEOREMS = ['Ymq.C03.factor_total', 'Ymq.C03.factorImpl_total']
 PROFILES = ["release", "chk"]
 TIMEOUT = 60.0
 RULE = ("every selector (inside its size precondition) x {0..300, products of 2-4 primes just above 199, 15-40 bit composites, "
@@ -18,8 +18,8 @@ RULE = ("every selector (inside its size precondition) x {0..300, products of 2-
 MODELLED = ["panic sites of lib.rs (asserts, unreachable!, division by zero, residue.is_one()) in Ymq/Model/Factor.lean; the replay "
             "classifies each observed crash as predicted-by-model (inside lib.rs) or outside the model (inside a sub-algorithm)"]
 UNMODELLED = ["panics inside sub-algorithms (sieve internals, bnum), stack exhaustion and hangs are found only by the exploration half",
-              "the Rho selector's fall-through to unreachable!() when pollard_rho::rho fails is a latent panic (no real input found that makes rho fail)"]
-HYPOTHESES = ['OracleOK', 'SelectorPre: alg in {qs64, rho, squfof} -> bits n <= 64', 'RhoNeverFails (only for alg = rho): pollard_rho::rho does not return None on a composite it is given', 'bits n <= fuel']
+]
+HYPOTHESES = ['OracleOK (sub-algorithms return genuine splits)', 'SelectorPre: alg in {qs64, rho, squfof} -> bits n <= 64', 'bits n <= fuel']
 
 P200 = [211, 223, 227, 229, 233, 239, 241, 251, 257, 263, 269, 271, 277, 281, 283, 293]
 
